@@ -77,6 +77,8 @@ void verif_event(int kind, const volatile void* a, const volatile void* b) {
   }
 }
 int verif_quarantine(void* block) { (void)block; return 1; }
+/* spin-wait iterations (spinlocks, signal raisers, ...) are scheduling points in T2 */
+void verif_relax(void) { rt_point(T2_LOC_RELAX, K_RELAX, 0); }
 
 static void t2_body(int t) {
   if (t == 0) {
